@@ -34,12 +34,14 @@ static int ir_obj_find(u64 p) { for (int i = 0; i < IR_MAX_OBJ; i++) if (i < ir_
 static void ir_obj_free(u64 p) { int i = ir_obj_find(p); IR_ASSERT(i >= 0, "free of an address that is no allocated object"); if (i >= 0) { IR_ASSERT(ir_obj_live[i], "double free"); ir_obj_live[i] = 0; } }
 #ifdef IR_CHECK_OBJECTS
 void ir_check_access(u64 a, u64 n) {
-  if (a < IR_HEAP_BASE) return;   /* globals, TLS and stack frames are not tracked */
 #ifdef IR_BUMP_SLOT
-  /* fixed-size slots: the object an address belongs to is found arithmetically (no search loop) */
-  u64 k = (a - IR_HEAP_BASE) / (IR_BUMP_SLOT + 16ull);
-  _Bool ok = k < IR_MAX_OBJ && k < (u64)ir_nobj && ir_obj_live[k] && a >= ir_obj_base[k] && a + n <= ir_obj_base[k] + ir_obj_size[k];
+  /* fixed-size slots: the object an address belongs to is found arithmetically (no search loop), and without a control-flow branch on the address
+     (a symbolic address - a table lookup with a symbolic index - must not fork a path in path-wise exploration); globals, TLS and stack frames are not tracked */
+  _Bool tracked = a >= IR_HEAP_BASE;
+  u64 k = tracked ? (a - IR_HEAP_BASE) / (IR_BUMP_SLOT + 16ull) : 0; _Bool kin = (k < IR_MAX_OBJ) & (k < (u64)ir_nobj); u64 kk = kin ? k : 0;
+  _Bool ok = !tracked | (kin & ir_obj_live[kk] & (a >= ir_obj_base[kk]) & (a + n <= ir_obj_base[kk] + ir_obj_size[kk]));
 #else
+  if (a < IR_HEAP_BASE) return;   /* globals, TLS and stack frames are not tracked */
   _Bool ok = 0;
   for (int i = 0; i < IR_MAX_OBJ; i++) if (i < ir_nobj && ir_obj_live[i] && a >= ir_obj_base[i] && a + n <= ir_obj_base[i] + ir_obj_size[i]) ok = 1;
 #endif
